@@ -70,6 +70,62 @@ Definition describe (cols : list (str * dtype)) : option (list (str * meta)) :=
                            | Some m, Some l => Some ((fst c, m) :: l)
                            | _, _ => None end) (Some []) cols.
 
+(* ---- information_schema.columns as the view _fs_columns_snowflake (info_schema.py:36-66, after fix 414aff9) computes it from DuckDB's own
+   information_schema.columns: data_type through a CASE of (prefix | equality) arms, numeric_precision / numeric_scale
+   through their own CASEs. The arms are data, compared with the SQL text of /repo's info_schema.py on every run. ---- *)
+Definition duck_base (t : dtype) : option str :=        (* DuckDB's data_type text; DECIMAL is followed by "(p,s)" *)
+  match t with
+  | DBigint => Some (lit "BIGINT") | DInteger => Some (lit "INTEGER") | DDecimal _ _ => Some (lit "DECIMAL")
+  | DDouble => Some (lit "DOUBLE") | DVarchar => Some (lit "VARCHAR") | DBoolean => Some (lit "BOOLEAN")
+  | DDate => Some (lit "DATE") | DTime => Some (lit "TIME") | DTimestamp => Some (lit "TIMESTAMP")
+  | DTimestampNs => Some (lit "TIMESTAMP_NS") | DTimestampTz => Some (lit "TIMESTAMP WITH TIME ZONE")
+  | DBlob => Some (lit "BLOB") | DJson => Some (lit "JSON") | DOther _ => None
+  end.
+Definition is_decimal (t : dtype) : bool := match t with DDecimal _ _ => true | _ => false end.
+Definition duck_prec (t : dtype) : option Z :=
+  match t with DBigint => Some 64 | DInteger => Some 32 | DDecimal p _ => Some p | DDouble => Some 53 | _ => None end.
+Definition duck_scale (t : dtype) : option Z :=
+  match t with DBigint | DInteger => Some 0 | DDecimal _ s => Some s | DDouble => Some 0 | _ => None end.
+
+Fixpoint prefixb (p s : str) : bool :=
+  match p, s with
+  | [], _ => true
+  | x :: p', y :: s' => Z.eqb x y && prefixb p' s'
+  | _ :: _, [] => false
+  end.
+
+(* (is a starts_with test, pattern, result) in CASE order *)
+Definition name_arms : list (bool * str * str) :=
+  [(true, lit "DECIMAL", lit "NUMBER"); (false, lit "BIGINT", lit "NUMBER"); (false, lit "INTEGER", lit "NUMBER"); (false, lit "VARCHAR", lit "TEXT"); (false, lit "DOUBLE", lit "FLOAT");
+   (false, lit "BLOB", lit "BINARY"); (false, lit "TIMESTAMP", lit "TIMESTAMP_NTZ"); (false, lit "TIMESTAMP WITH TIME ZONE", lit "TIMESTAMP_TZ");
+   (false, lit "JSON", lit "VARIANT")].
+Definition prec_arms : list (str * option Z) := [(lit "BIGINT", Some 38); (lit "INTEGER", Some 38); (lit "DOUBLE", None)].
+Definition scale_arms : list (str * option Z) := [(lit "DOUBLE", None)].
+
+Definition arm_hit (dec : bool) (base : str) (a : bool * str * str) : bool :=
+  if fst (fst a) then prefixb (snd (fst a)) base else negb dec && str_eqb (snd (fst a)) base.
+Definition eq_hit (dec : bool) (base : str) (a : str * option Z) : bool := negb dec && str_eqb (fst a) base.
+
+Definition info_name (t : dtype) : option str :=
+  option_map (fun b => match find (arm_hit (is_decimal t) b) name_arms with Some a => snd a | None => b end) (duck_base t).
+Definition info_prec (t : dtype) : option Z :=
+  match duck_base t with
+  | Some b => match find (eq_hit (is_decimal t) b) prec_arms with Some a => snd a | None => duck_prec t end
+  | None => None end.
+Definition info_scale (t : dtype) : option Z :=
+  match duck_base t with
+  | Some b => match find (eq_hit (is_decimal t) b) scale_arms with Some a => snd a | None => duck_scale t end
+  | None => None end.
+
+(* the Snowflake type name of a result-metadata kind (what SHOW COLUMNS / information_schema print for it) *)
+Definition sf_name (k : sfkind) : str :=
+  match k with
+  | Fixed => lit "NUMBER" | Real => lit "FLOAT" | Text => lit "TEXT" | SfDate => lit "DATE" | SfTime => lit "TIME"
+  | TsNtz => lit "TIMESTAMP_NTZ" | TsTz => lit "TIMESTAMP_TZ" | Binary => lit "BINARY" | Variant => lit "VARIANT" | SfBoolean => lit "BOOLEAN"
+  end.
+(* column types Snowflake DDL and queries can give a table here: everything but the nanosecond timestamp (only reachable through DuckDB syntax) *)
+Definition column_dom (t : dtype) : bool := match t with DTimestampNs => false | _ => true end.
+
 (* ---- sexp ---- *)
 Definition dec_dtype (x : sexp) : option dtype :=
   match x with
@@ -96,3 +152,18 @@ Definition run_c06_type (x : sexp) : sexp :=
   | None => bad
   end.
 Definition run_c06_table (_ : sexp) : sexp := enc_list (fun p => L [enc_str (fst p); enc_str (snd p)]) table.
+
+(* input: (dtype ...) ; output per type: (info-name info-precision info-scale description-name description-precision description-scale in-column-dom) *)
+Definition run_c09_types (x : sexp) : sexp :=
+  match dec_list dec_dtype x with
+  | Some ts => enc_list (fun t => L [enc_opt enc_str (info_name t); enc_opt A (info_prec t); enc_opt A (info_scale t);
+                                     enc_opt (fun m => enc_str (sf_name (kind m))) (sf_meta t);
+                                     enc_opt A (match sf_meta t with Some m => precision m | None => None end);
+                                     enc_opt A (match sf_meta t with Some m => scale m | None => None end);
+                                     enc_bool (column_dom t)]) ts
+  | None => bad
+  end.
+Definition run_c09_arms (_ : sexp) : sexp :=
+  L [enc_list (fun a => L [enc_bool (fst (fst a)); enc_str (snd (fst a)); enc_str (snd a)]) name_arms;
+     enc_list (fun a => L [enc_str (fst a); enc_opt A (snd a)]) prec_arms;
+     enc_list (fun a => L [enc_str (fst a); enc_opt A (snd a)]) scale_arms].
